@@ -318,3 +318,20 @@ def safe_for_float(pattern, flags, method='match'):
 
 def accepts(pattern, flags, text, method='match'):
     return bool(getattr(re.compile(pattern, flags), method)(text))
+
+
+def min_len(p):
+    """Minimum length of a match of p."""
+    n = 0
+    for op, av in p:
+        if op in (sre_c.LITERAL, sre_c.NOT_LITERAL, sre_c.ANY, sre_c.IN,
+                  sre_c.CATEGORY):
+            n += 1
+        elif op is sre_c.BRANCH:
+            n += min(min_len(alt) for alt in av[1])
+        elif op in (sre_c.MAX_REPEAT, sre_c.MIN_REPEAT) or \
+                str(op) == 'POSSESSIVE_REPEAT':
+            n += av[0] * min_len(av[2])
+        elif op is sre_c.SUBPATTERN:
+            n += min_len(av[3])
+    return n
